@@ -1,7 +1,7 @@
 \* the property can fail: with the implementation's deviations HistoryIndependent must be violated
 SPECIFICATION Spec
 CONSTANTS
-  Deviations <- RealDevs
+  Deviations <- PinnedDevs
   MaxLen = 2
   Alphabet <- AllOps
   UseRecorded = FALSE
